@@ -413,7 +413,22 @@ func (p *Program) exportedMethods(tc *TypeContract) []string {
 			}
 			out = append(out, funcKey(f))
 		}
+		// `methods a, b`: further units of the discipline — unexported methods of the type (goroutine bodies) or
+		// package-level functions of the same package
+		for _, n := range splitList(tc.Opts["methods"]) {
+			if n == "" {
+				continue
+			}
+			if fn := p.findFunc(tc.Key + "." + n); fn != nil && len(fn.Blocks) > 0 {
+				out = append(out, tc.Key+"."+n)
+			} else if fn := p.findFunc(parts[0] + "." + n); fn != nil && len(fn.Blocks) > 0 {
+				out = append(out, parts[0]+"."+n)
+			} else {
+				p.specErrors = append(p.specErrors, fmt.Sprintf("%s: type %s: methods: %s is neither a method of the type nor a function of the package", tc.File, tc.Key, n))
+			}
+		}
 	}
+	out = dedup(out)
 	sort.Strings(out)
 	return out
 }
